@@ -192,9 +192,9 @@ Section Registry.
   Definition set_id (o : N) (tg : str) : fop (str * list node) := fun f =>
     let r := get_rec o tg f in
     match nr_ids r with
-    | _ :: _ =>
+    | i0 :: rest =>
         match register_ids o (nr_ids r) [] f with
-        | Good (msgs, f') => Good ((last (nr_ids r) [], msgs), f')
+        | Good (msgs, f') => Good ((last rest i0, msgs), f')     (* node['ids'][-1] of a non-empty list *)
         | Bad e => Bad e
         end
     | [] =>
